@@ -68,6 +68,7 @@ type Path struct {
 	ghost     map[string]Value
 	clockLast *Term
 	pcSet     map[*Term]bool
+	oracleCalls int
 }
 
 func (p *Path) replaying() bool { return len(p.decisions) < len(p.prefix) }
@@ -733,11 +734,12 @@ func (m *Machine) Oracle(name string, outLen int, inj bool, args [][]*Term) []*T
 		unsupported("oracle %s applied outside a path", name)
 	}
 	key := name + "|" + termsKey(args)
+	p.oracleCalls++
 	if app, ok := p.oracleMemo[key]; ok {
 		return app.out
 	}
 	app := &oracleApp{name: name, key: key, args: args, inj: inj}
-	base := fmt.Sprintf("orc!%s!%d", name, len(p.oracles))
+	base := fmt.Sprintf("orc!%s!%d", name, p.oracleCalls)
 	if outLen < 0 {
 		app.out = []*Term{m.NewInput(base, 0, "oracle")}
 	} else {
